@@ -146,12 +146,12 @@ def harnesses(tier):
         return [dict(kind=kind, md=md, field=field, range=(max(lo, -M6), min(hi, M6)), values=values), dict(kind=kind, md=md, field=field, range=(lo, lo), values=values), dict(kind=kind, md=md, field=field, range=(hi, hi), values=values)]
     node = [5, 3, 1262304000, 77, 9, 1, 123456789, -87654321]
     ways = [9, 1, 5, 6]; cs = [4, 1262304000, 1262305000, 3, 17, 10, 20, 30]
-    opl = both(0, 0, -I63, I63, node) + both(0, 3, 0, (1 << 32) - 1, node) + both(0, 4, 0, (1 << 31) - 1, node) + both(0, 0, -I63, I63, node, md=0) + both(3, 0, 0, (1 << 32) - 1, cs) + both(3, 4, 0, (1 << 32) - 1, cs)
+    opl = both(0, 0, -I63, I63, node) + both(0, 1, 0, (1 << 32) - 1, node) + both(0, 3, 0, (1 << 32) - 1, node) + both(0, 4, 0, (1 << 31) - 1, node) + both(0, 0, -I63, I63, node, md=0) + both(3, 0, 0, (1 << 32) - 1, cs) + both(3, 4, 0, (1 << 32) - 1, cs)
     import C02, C03
     return [
-        Harness('opl_object_roundtrip', 'codec', h_opl_roundtrip, mode='INT', jobs=opl if not q else opl[0:3] + opl[3:4] + opl[12:15], native_ok=True,
+        Harness('opl_object_roundtrip', 'codec', h_opl_roundtrip, mode='INT', jobs=opl if not q else opl[0:3] + opl[3:7] + opl[15:18], native_ok=True,
                 tests=[dict(_job=0, field=12345)],
-                desc='one node / way / relation / changeset with user, tags (values containing space and =), roles through OPLOutputBlock (real writer) and opl_parse_line (real parser); one numeric field at a time is symbolic over a 6-digit range and concrete at its type boundaries (object id, changeset, uid, changeset id, num_changes; version, coordinates and references of ways / relations stay concrete: their bit-field and packed-word handling is outside the integer encoding, coordinates as text are C13): the traversal dump of the parsed object equals that of the original',
+                desc='one node / way / relation / changeset with user, tags (values containing space and =), roles through OPLOutputBlock (real writer) and opl_parse_line (real parser); one numeric field at a time is symbolic over a 6-digit range and concrete at its type boundaries (object id, version, changeset, uid, changeset id, num_changes; coordinates and references of ways / relations stay concrete: the reference lists are not decided in time (solver unknown after 240 s), coordinates as text are C13): the traversal dump of the parsed object equals that of the original',
                 bounds='one object per run, one symbolic field per job, the other fields concrete; timestamps concrete', wall=900),
         Harness('pbf_dense_block_roundtrip', 'codec', h_pbf_nodes, jobs=jobs, testgen=lambda rnd: [dict(_job=0, **t) for t in gen_nodes(n, 'small')(rnd)],
                 desc='%d nodes with symbolic id / version / timestamp / changeset / uid / visible / location through PrimitiveBlock::add_dense_node + DenseNodes::serialize + SerializeBlob (no compression), then length prefix, decode_blob_header, decode_blob and PBFPrimitiveBlockDecoder: every field comes back identical (or as its default when the metadata option drops it); the reader accepts what the writer wrote' % n,
